@@ -372,6 +372,10 @@ def main():
                     json.dump(doc, open(path, 'w'), indent=1)
                     if name in lock:
                         violations.append((name, path, ' no-failing-input-found'))
+                    elif e.get('kind') == 'exc' and any(l.startswith(name.rsplit('/', 1)[0] + '/') for l in lock):
+                        # "no exception (other than the declared ones) escapes" is an implicit obligation of every entry: it held
+                        # on the unchanged tree (the entry is in obligations.lock and had no such escaping path), now a path raises
+                        violations.append((name, path, ' no-failing-input-found'))
                     elif rp.get('outcome') == 'held' and not e['abstracted'] and w.get('replay', {}).get('from') == 'entry' and 'head' not in w and e.get('kind') not in ('inv-entry', 'inv-preserved', 'variant'):
                         # (loop invariants / variants are not evaluated by the native run: "held" says nothing about them)
                         errors.append(f'{name}: counter-model does not replay although no abstraction was used (engine model of a primitive?)')
